@@ -499,7 +499,7 @@ func runC07(a vh.Args, o *vh.Oracle, r *vh.Result) error {
 	}
 	ns := []int{1, 2, 4}
 	inputsPerOp := 2
-	maxK := 32
+	maxK := 24
 	if thorough {
 		inputsPerOp = 6
 		maxK = 400
@@ -538,6 +538,9 @@ func runC07(a vh.Args, o *vh.Oracle, r *vh.Result) error {
 			}
 			for _, v := range vars {
 				for _, n := range ns {
+					if !thorough && ii > 0 && n == 2 {
+						continue
+					}
 					// baseline: no cancellation
 					base := c0
 					base.Variant, base.N, base.K = v, n, -1
